@@ -231,7 +231,7 @@ class Machine:
                 a = [ev(x) for x in node.args]
                 if a[0] != ("opaque", "self.default_privatekey") or a[1] != ("opaque", "self.default_ca._cert"):
                     raise AnalysisError("dummy_cert is not called with the store's CA key / certificate")
-                return CertRec(a[2], tuple(a[3]), gen_args=(a[2], Names(a[3])))
+                return CertRec(cert_cn_of(self.ctx, a[2]), tuple(a[3]), gen_args=(a[2], Names(a[3])))
             if name == "CertStoreEntry":
                 kw = {k.arg: ev(k.value) for k in node.keywords}
                 pos = [ev(x) for x in node.args]
@@ -240,6 +240,53 @@ class Machine:
                     raise AnalysisError("CertStoreEntry(cert=...) shape not modelled")
                 return Entry(cert)
         raise NotAnAtom
+
+
+_CN_CACHE: dict = {}
+
+
+def cert_cn_of(ctx, commonname):
+    """The CN the generated certificate really carries (what ``Cert.cn`` reads back), derived from dummy_cert's own AST: the value and the
+    guards of its ``NameAttribute(NameOID.COMMON_NAME, ...)`` - today: present only when ``commonname is not None and len(commonname) < 64``."""
+    key = (id(ctx.model), commonname)
+    if key in _CN_CACHE:
+        return _CN_CACHE[key]
+    fn = ctx.func(F, "dummy_cert")
+    sites = [c for c in walk_in_order(fn) if isinstance(c, ast.Call) and last_attr(c.func) == "NameAttribute" and c.args and attr_chain(c.args[0]).endswith("COMMON_NAME")]
+    if len(sites) != 1 or len(sites[0].args) != 2:
+        raise AnalysisError(f"dummy_cert: expected exactly one NameAttribute(NameOID.COMMON_NAME, value), found {len(sites)}")
+    site = sites[0]
+    params = [a.arg for a in fn.args.args]
+    if "commonname" not in params:
+        raise AnalysisError("dummy_cert has no `commonname` parameter any more")
+
+    def atom(node, env):
+        if isinstance(node, ast.Name):
+            if node.id == "commonname":
+                return commonname
+            defs = [n for n in walk_in_order(fn) if isinstance(n, ast.Assign) and len(n.targets) == 1 and isinstance(n.targets[0], ast.Name) and n.targets[0].id == node.id]
+            if len(defs) == 1:
+                return ceval(defs[0].value, env, atom, "dummy_cert CN guard")
+            raise AnalysisError(f"dummy_cert: CN guard reads `{node.id}` (not a single-assignment local)")
+        if isinstance(node, ast.Call) and call_name(node) == "len" and len(node.args) == 1:
+            return len(ceval(node.args[0], env, atom, "dummy_cert CN guard"))
+        raise NotAnAtom
+
+    present = True
+    child, p = site, getattr(site, "_parent", None)
+    while p is not None and p is not fn:
+        if isinstance(p, ast.If):
+            v = bool(ceval(p.test, {}, atom, "dummy_cert CN guard"))
+            if child in p.body:
+                present = present and v
+            elif child in p.orelse:
+                present = present and not v
+        elif isinstance(p, (ast.For, ast.While, ast.Try, ast.With, ast.Match)):
+            raise AnalysisError(f"dummy_cert: the CN attribute is added inside a {type(p).__name__} (not modelled)")
+        child, p = p, getattr(p, "_parent", None)
+    val = ceval(site.args[1], {}, atom, "dummy_cert CN value") if present else None
+    _CN_CACHE[key] = val
+    return val
 
 
 # ---- reference model ------------------------------------------------------------------------------
@@ -273,6 +320,12 @@ REQUESTS = [
     ("1.2.3.4", (IP("1.2.3.4"),)),
     (None, (DNS("q.r"),)),
     ("a.b.c", (DNS("a.b.c"), DNS("x.b.c"))),
+]
+LONG = "l" * 70 + ".b.c"  # too long for a CN: the generated certificate carries the name only as SAN, Cert.cn reads back None
+# requests that exercise what the first four do not: a bare parent domain of a wildcard registration, a CN-less generated certificate
+EXTRA_REQUESTS = [
+    ("b.c", (DNS("b.c"),)),
+    (LONG, (DNS(LONG),)),
 ]
 CUSTOMS = [
     ("custom[*.b.c]", "*.b.c", (DNS("*.b.c"),), ()),
@@ -408,8 +461,8 @@ def check(ctx):
     _writers(ctx)
     _r17_3(ctx)
     quick = ctx.tier != "thorough"
-    requests = REQUESTS[:4] if quick else REQUESTS
-    customs = CUSTOMS[:3] if quick else CUSTOMS
+    requests = (REQUESTS[:3] if quick else REQUESTS) + EXTRA_REQUESTS
+    customs = [CUSTOMS[0], CUSTOMS[1], CUSTOMS[4]] if quick else CUSTOMS  # quick: wildcard by certificate name, catch-all, wildcard by explicit spec name
     fn = ctx.func(F, "CertStore.get_cert")
     ctx.func(F, "CertStore.add_cert")
     ctx.func(F, "CertStore.expire")
@@ -444,6 +497,8 @@ def check(ctx):
 
 
 MUTANTS = [
+    Mutant("evict-by-reconstructed-key", F, "            self.certs = {k: v for k, v in self.certs.items() if v != d}\n", "            self.certs.pop((d.cert.cn, d.cert.altnames), None)\n", "R17.1"),
+    Mutant("wildcard-spec-also-registers-parent-domain", F, "        for i in names:\n            self.certs[i] = entry\n", "        for i in names:\n            self.certs[i] = entry\n            if i.startswith(\"*.\"):\n                self.certs.setdefault(i[2:], entry)\n", "R17.2"),
     Mutant("expire-never-evicts", F, "        if len(self.expire_queue) > self.STORE_CAP:\n", "        if len(self.expire_queue) > self.STORE_CAP and False:\n", "R17.1"),
     Mutant("expire-off-by-many", F, "        if len(self.expire_queue) > self.STORE_CAP:\n", "        if len(self.expire_queue) > self.STORE_CAP + 1:\n", "R17.1"),
     Mutant("expire-queue-only", F, "            self.certs = {k: v for k, v in self.certs.items() if v != d}\n", "            pass\n", "R17.1"),
